@@ -22,14 +22,14 @@ type Cache struct {
 
 // cacheHistory storage fiflesystem changes
 type cacheHistory struct {
-	removeMU    sync.RWMutex
-	remove      map[string]bool
-	removeAllMU sync.RWMutex
-	removeAll   map[string]bool
-	mkdirAllMU  sync.RWMutex
-	mkdirAll    map[string]os.FileMode
-	writeMU     sync.RWMutex
-	write       map[string]bool
+	removeMU sync.RWMutex
+	// remove is a set of (clean) paths removed by Remove or RemoveAll.
+	// A remote node is hidden if its path or path of one of its ancestors is in the set.
+	remove     map[string]bool
+	mkdirAllMU sync.RWMutex
+	mkdirAll   map[string]os.FileMode
+	writeMU    sync.RWMutex
+	write      map[string]bool
 }
 
 // newCache create new chache for remoteFS (use exists buffer filespace)
@@ -39,10 +39,9 @@ func newCache(bufferFS, remoteFS filesystem.Filespace) *Cache {
 		bufferRO: fshelper.NewReadonlyFS(bufferFS),
 		remoteFS: remoteFS,
 		changes: cacheHistory{
-			remove:    map[string]bool{},
-			removeAll: map[string]bool{},
-			mkdirAll:  map[string]os.FileMode{},
-			write:     map[string]bool{},
+			remove:   map[string]bool{},
+			mkdirAll: map[string]os.FileMode{},
+			write:    map[string]bool{},
 		},
 	}
 }
@@ -70,15 +69,6 @@ func (c *Cache) Commit() (err error) {
 	c.changes.removeMU.RLock()
 	defer c.changes.removeMU.RUnlock()
 	for src = range c.changes.remove {
-		if c.remoteFS.IsFile(src) {
-			if err = c.remoteFS.Remove(src); err != nil {
-				return err
-			}
-		}
-	}
-	c.changes.removeAllMU.RLock()
-	defer c.changes.removeAllMU.RUnlock()
-	for src = range c.changes.removeAll {
 		if c.remoteFS.IsExist(src) {
 			if err = c.remoteFS.RemoveAll(src); err != nil {
 				return err
@@ -109,10 +99,11 @@ func (c *Cache) Commit() (err error) {
 	return nil
 }
 
-// Copy duplicate a file or directory
+// srcFS return clean path and the filespace to read the node from.
+// It is remote filespace only if the node is not buffered and is not removed.
 func (c *Cache) srcFS(p string) (srcFS filesystem.Filespace, src string) {
 	src = varutil.CleanPath(p)
-	if c.bufferFS.IsExist(src) {
+	if c.bufferFS.IsExist(src) || c.isRemoved(src) {
 		srcFS = c.bufferFS
 	} else {
 		srcFS = c.remoteFS
@@ -120,14 +111,25 @@ func (c *Cache) srcFS(p string) (srcFS filesystem.Filespace, src string) {
 	return srcFS, src
 }
 
+// isRemoved return true if the (clean) path or one of its ancestors is removed
+func (c *Cache) isRemoved(src string) bool {
+	c.changes.removeMU.RLock()
+	defer c.changes.removeMU.RUnlock()
+	for i := 1; i <= len(src); i++ {
+		if (i == len(src) || src[i] == '/') && c.changes.remove[src[:i]] {
+			return true
+		}
+	}
+	return false
+}
+
 // Copy duplicate a file or directory
 func (c *Cache) Copy(src, dest string) error {
-	var srcFS filesystem.Filespace
-	srcFS, src = c.srcFS(src)
+	src = varutil.CleanPath(src)
 	dest = varutil.CleanPath(dest)
 	c.changeWrite(dest, true)
 	return (fshelper.Copier{
-		SrcFS:    srcFS,
+		SrcFS:    c,
 		SrcPath:  src,
 		DestFS:   c.bufferFS,
 		DestPath: dest,
@@ -165,40 +167,49 @@ func (c *Cache) ReadDir(src string) (result []os.FileInfo, err error) {
 		remoteErr, bufferErr   error
 	)
 	src = varutil.CleanPath(src)
-	remoteDirs, remoteErr = c.remoteFS.ReadDir(src)
+	if c.isRemoved(src) {
+		remoteErr = goaterr.Errorf("%s is removed", src)
+	} else {
+		remoteDirs, remoteErr = c.remoteFS.ReadDir(src)
+	}
 	bufferDirs, bufferErr = c.bufferFS.ReadDir(src)
 	if remoteErr != nil && bufferErr != nil {
 		return nil, goaterr.ToError(goaterr.AppendError(nil, remoteErr, bufferErr))
 	}
-	result = remoteDirs
+	result = make([]os.FileInfo, 0, len(remoteDirs)+len(bufferDirs))
 ReadDirLoop:
-	for _, bnode := range bufferDirs {
-		for _, cnode := range remoteDirs {
-			if bnode.Name() == cnode.Name() {
+	for _, rnode := range remoteDirs {
+		for _, bnode := range bufferDirs {
+			if bnode.Name() == rnode.Name() {
 				continue ReadDirLoop
 			}
 		}
-		result = append(result, bnode)
+		if !c.isRemoved(path.Join(src, rnode.Name())) {
+			result = append(result, rnode)
+		}
 	}
-	return result, nil
+	return append(result, bufferDirs...), nil
 }
 
 // IsExist return true if node exist
 func (c *Cache) IsExist(src string) bool {
-	src = varutil.CleanPath(src)
-	return c.bufferFS.IsExist(src) || c.remoteFS.IsExist(src)
+	var srcFS filesystem.Filespace
+	srcFS, src = c.srcFS(src)
+	return srcFS.IsExist(src)
 }
 
 // IsFile return true if node exist and is a file
 func (c *Cache) IsFile(src string) bool {
-	src = varutil.CleanPath(src)
-	return c.bufferFS.IsFile(src) || c.remoteFS.IsFile(src)
+	var srcFS filesystem.Filespace
+	srcFS, src = c.srcFS(src)
+	return srcFS.IsFile(src)
 }
 
 // IsDir return true if node exist and is a directory
 func (c *Cache) IsDir(src string) bool {
-	src = varutil.CleanPath(src)
-	return c.bufferFS.IsDir(src) || c.remoteFS.IsDir(src)
+	var srcFS filesystem.Filespace
+	srcFS, src = c.srcFS(src)
+	return srcFS.IsDir(src)
 }
 
 // MkdirAll create directory recursively
@@ -242,22 +253,44 @@ func (c *Cache) Filespace(subPath string) (filesystem.Filespace, error) {
 
 // Remove delete node by path
 func (c *Cache) Remove(dest string) (err error) {
+	var nodes []os.FileInfo
 	dest = varutil.CleanPath(dest)
+	if dest == "." || dest == "" {
+		return goaterr.Errorf("Can not remove root node")
+	}
+	if !c.IsExist(dest) {
+		return goaterr.Errorf("Can not find node to remove (by path %s)", dest)
+	}
+	if c.IsDir(dest) {
+		if nodes, err = c.ReadDir(dest); err != nil {
+			return err
+		}
+		if len(nodes) != 0 {
+			return goaterr.Errorf("Can not remove not empty directory %s", dest)
+		}
+	}
 	if c.bufferFS.IsExist(dest) {
-		err = c.bufferFS.Remove(dest)
+		if err = c.bufferFS.Remove(dest); err != nil {
+			return err
+		}
 	}
 	c.changeRemove(dest, true)
-	return err
+	return nil
 }
 
 // RemoveAll delete node by path recursively
 func (c *Cache) RemoveAll(dest string) (err error) {
 	dest = varutil.CleanPath(dest)
-	if c.bufferFS.IsExist(dest) {
-		err = c.bufferFS.RemoveAll(dest)
+	if dest == "." || dest == "" {
+		return goaterr.Errorf("Can not remove root node")
 	}
-	c.changeRemoveAll(dest, true)
-	return err
+	if c.bufferFS.IsExist(dest) {
+		if err = c.bufferFS.RemoveAll(dest); err != nil {
+			return err
+		}
+	}
+	c.changeRemove(dest, true)
+	return nil
 }
 
 // Lstat returns a FileInfo describing the named file.
@@ -277,12 +310,6 @@ func (c *Cache) changeRemove(dest string, value bool) {
 	c.changes.removeMU.Lock()
 	defer c.changes.removeMU.Unlock()
 	c.changes.remove[dest] = value
-}
-
-func (c *Cache) changeRemoveAll(dest string, value bool) {
-	c.changes.removeAllMU.Lock()
-	defer c.changes.removeAllMU.Unlock()
-	c.changes.removeAll[dest] = value
 }
 
 func (c *Cache) changeMkdirAll(dest string, value os.FileMode) {
